@@ -3340,10 +3340,11 @@ func UnmarshalPathAttributes(values []*api.Attribute) ([]bgp.PathAttributeInterf
 
 // MarshalSRBSID marshals SR Policy Binding SID Sub TLV structure
 func MarshalSRBSID(bsid *bgp.TunnelEncapSubTLVSRBSID) (*api.SRBindingSID, error) {
-	s := &api.SRBindingSID{
-		Sid: make([]byte, len(bsid.BSID.Value)),
+	s := &api.SRBindingSID{}
+	if bsid.BSID != nil {
+		s.Sid = make([]byte, len(bsid.BSID.Value))
+		copy(s.Sid, bsid.BSID.Value)
 	}
-	copy(s.Sid, bsid.BSID.Value)
 	s.SFlag = bsid.Flags&0x80 == 0x80
 	s.IFlag = bsid.Flags&0x40 == 0x40
 	return s, nil
@@ -3356,6 +3357,11 @@ func UnmarshalSRBSID(bsid *api.TunnelEncapSubTLVSRBindingSID) (bgp.TunnelEncapSu
 		b, err := bgp.NewBSID(v.SrBindingSid.Sid)
 		if err != nil {
 			return nil, err
+		}
+		if b == nil {
+			// No Binding SID (sub-TLV of length 2): NewBSID returns nil for
+			// an empty SID; use the empty value the decoder produces.
+			b = &bgp.BSID{Value: []byte{}}
 		}
 		flags := uint8(0x0)
 		if v.SrBindingSid.SFlag {
